@@ -184,12 +184,72 @@ def run_priors(desc, algo):
                 D.run_algo(algo, H.Case(d).build(c), pol)
             except Exception:
                 pass    # a failing earlier call is reported by the ordinary sections, not here
+    # an input created WITHOUT a cost vector gets the documented defaults; the program then tunes that input's costs in place
+    try:
+        raw = _default_cost_input(desc)
+        D.run_algo(algo, raw, "any")
+        for ev in list(raw.costs):
+            raw.costs[ev] = raw.costs[ev] * 3 + 1
+    except Exception:
+        pass
+
+
+DOCUMENTED_DEFAULTS = {"SPECIATION": 0, "DUPLICATION": 1, "HORIZONTAL_TRANSFER": 1, "FULL_LOSS": 1, "SEGMENTAL_LOSS": 1}
+
+
+def _default_cost_input(desc):
+    from superrec2.model.reconciliation import ReconciliationInput, SuperReconciliationInput
+    case = H.Case(desc)
+    d = {"object_tree": case.O.newick(), "species_tree": case.S.newick(), "leaf_object_species": case.leafmap}
+    if case.leafsyn is not None:
+        d["leaf_syntenies"] = dict(case.leafsyn)
+        return SuperReconciliationInput.from_dict(d)
+    return ReconciliationInput.from_dict(d)
+
+
+def default_cost_fails(desc):
+    """An input created without a cost vector must carry the documented defaults, whatever earlier inputs went through."""
+    got = {ev.name: v for ev, v in _default_cost_input(desc).costs.items()}
+    return [] if got == DOCUMENTED_DEFAULTS else [f"an input created without costs carries {got}, the documented defaults are {DOCUMENTED_DEFAULTS}"]
+
+
+def shared_objects_prior(inp, algo):
+    """Another input built on the SAME tree objects and ancestry structure (leaf assignment rotated, another cost vector) is solved first:
+    many gene families against one species tree."""
+    import dataclasses
+    leaves = sorted(inp.leaf_object_species, key=lambda n: n.name)
+    targets = [inp.leaf_object_species[l] for l in leaves]
+    costs = {ev: PRIOR_COSTS[1][next(n for n, key in H.COST_KEYS.items() if key == ev.name)] for ev in inp.costs}
+    for assignment in ([targets[0]] * len(targets), targets[1:] + targets[:1]):      # everything in one species; rotated
+        sib = dataclasses.replace(inp, leaf_object_species=dict(zip(leaves, assignment)), costs=dict(costs))
+        for pol in ("any", "all"):
+            try:
+                D.run_algo(algo, sib, pol)
+            except Exception:
+                pass
+
+
+def _swap_pair(case):
+    """Two object leaves with different parents (first and last by name), or None."""
+    ls = sorted(case.O.leaves, key=lambda i: case.O.name[i])
+    if len(ls) >= 3 and case.O.parent[ls[0]] != case.O.parent[ls[-1]]:
+        return case.O.name[ls[0]], case.O.name[ls[-1]]
+    return None
 
 
 def build_inplace(case, algo, costs):
-    """The same input OBJECT is solved under one cost vector, then its cost dictionary is changed in place (the repository's own tests
-    switch costs this way) and handed back for the call under test."""
-    inp = case.build(PRIOR_COSTS[1])
+    """The same input OBJECT is first solved in another state - another cost vector, leaf syntenies rotated among the leaves, two object
+    leaves exchanged in the tree - and is then edited IN PLACE into the input under test (cost dictionary, synteny dictionary, tree),
+    the way a program sweeping costs or correcting its data does (the repository's own tests switch costs this way)."""
+    pair = _swap_pair(case)
+    pre = dict(case.desc)
+    if pair:
+        pre["ot"] = D._rename(case.ot, {pair[0]: pair[1], pair[1]: pair[0]})
+    leaves = sorted(case.leafmap)
+    if case.leafsyn is not None and case.rootsyn is None:
+        # other contents and another gene order: rotated among the leaves, reversed, last family dropped
+        pre["leafsyn"] = {l: (list(reversed(case.leafsyn[r]))[:-1] or list(case.leafsyn[r])) for l, r in zip(leaves, leaves[1:] + leaves[:1])}
+    inp = H.Case(pre).build(PRIOR_COSTS[1])
     for pol in ("any", "all"):
         try:
             D.run_algo(algo, inp, pol)
@@ -198,6 +258,16 @@ def build_inplace(case, algo, costs):
     for ev in list(inp.costs):
         name = next(n for n, key in H.COST_KEYS.items() if key == ev.name)
         inp.costs[ev] = costs[name]
+    if case.leafsyn is not None and case.rootsyn is None:
+        for node in list(inp.leaf_syntenies):
+            if node.is_leaf():
+                inp.leaf_syntenies[node] = list(case.leafsyn[node.name]) if not isinstance(inp.leaf_syntenies[node], str) else "".join(case.leafsyn[node.name])
+    if pair:
+        x, y = inp.object_tree & pair[0], inp.object_tree & pair[1]
+        px, py = x.up, y.up
+        ix, iy = px.children.index(x), py.children.index(y)
+        px.children[ix], py.children[iy] = y, x
+        x.up, y.up = py, px
     return inp
 
 
@@ -213,18 +283,22 @@ def _fresh_process(payload, timeout):
 
 
 # ----------------------------------------------------------------------------- concrete re-check
-def concrete_failures(desc, algo, policy, costs, flags, inplace=False):
+def concrete_failures(desc, algo, policy, costs, flags, inplace=False, history=False):
     case = H.Case(desc)
     orc = oracle_for(case, algo)
     need = bool({"opt", "empty"} & set(flags))
     forms = oracle_forms(orc, algo, need)
     inp = build_inplace(case, algo, costs) if inplace else case.build(costs)
+    extra = []
+    if history and not inplace:
+        shared_objects_prior(inp, algo)
+        extra = [("defaults", t) for t in default_cost_fails(desc)]
     del _WATCH[:]
     try:
         res = D.run_algo(algo, inp, policy)
     except Exception as e:
         return [("exception", f"{type(e).__name__}: {e}")]
-    fails = []
+    fails = list(extra)
     changed = shared_state_changes()
     if changed and "valid" in flags:
         fails.append(("state", changed[0]))
@@ -303,7 +377,7 @@ def replay(data):
     if data.get("prior") and data["prior"] != "inplace":
         run_priors(data["desc"], data["algo"])      # `vcheck replay` is itself a fresh interpreter
     fails = concrete_failures(data["desc"], data["algo"], data["policy"], H.cost_unjson(data["costs"]), set(data["flags"]),
-                              inplace=data.get("prior") == "inplace")
+                              inplace=data.get("prior") == "inplace", history=bool(data.get("prior")))
     for k, t in fails:
         print(f"  reproduced: {k}: {t}")
     return any(k == data.get("expect") for k, _ in fails)
@@ -328,6 +402,8 @@ def explore(prop, desc, algo, policy, sym, fixed, flags, max_paths=20000, budget
     ordered = D.ORDERED[algo] if sup else None
     ctx, costs = H.cost_ctx(sym, fixed=fixed, coherent=coherent, with_sloss=sup, max_paths=max_paths, budget_s=budget_s)
     inp = build_inplace(case, algo, costs) if prior == "inplace" else case.build(costs)
+    if prior and prior != "inplace":
+        shared_objects_prior(inp, algo)
     mode = "sym=" + ",".join(sym) + (" hgt=inf" if costs["hgt"] is inf else "")
     out = dict(paths=0, obligations=0, discharged=0, violations=[], sample=None)
     sols = None
@@ -347,6 +423,13 @@ def explore(prop, desc, algo, policy, sym, fixed, flags, max_paths=20000, budget
             out["discharged"] += 1
         return ok
 
+    if prior and prior != "inplace":
+        dflt = default_cost_fails(desc)
+        out["obligations"] += 1
+        if dflt:
+            out["violations"].append(violation(prop, "defaults", dflt[0], desc, algo, policy, PRIOR_COSTS[0], mode, flags, prior))
+        else:
+            out["discharged"] += 1
     for _ in ctx.paths():
         del _WATCH[:]
         try:
